@@ -40,6 +40,8 @@ use crate::stream::Stream;
 pub enum Listener {
     TCP(Option<TcpListener>, bool),
     UNIX(Option<UnixListener>, bool),
+    #[cfg(varlink_rust_verif)]
+    Sim(verif::SimHandle),
 }
 
 fn activation_listener() -> Option<usize> {
@@ -91,6 +93,12 @@ impl Listener {
     #[allow(clippy::new_ret_no_self)]
     pub fn new<S: ?Sized + AsRef<str>>(address: &S) -> Result<Self> {
         let address = address.as_ref();
+        #[cfg(varlink_rust_verif)]
+        if let Some(name) = address.strip_prefix("sim:") {
+            return verif::lookup(name)
+                .map(Listener::Sim)
+                .ok_or_else(|| context!(ErrorKind::InvalidAddress));
+        }
         if let Some(l) = activation_listener() {
             #[cfg(windows)]
             {
@@ -212,7 +220,12 @@ impl Listener {
 
     #[cfg(unix)]
     pub fn accept(&self, timeout: u64) -> Result<Box<dyn Stream>> {
+        #[cfg(varlink_rust_verif)]
+        use self::verif::select;
+        #[cfg(not(varlink_rust_verif))]
         use libc::{fd_set, select, timeval, EAGAIN, EINTR, FD_ISSET, FD_SET, FD_ZERO};
+        #[cfg(varlink_rust_verif)]
+        use libc::{fd_set, timeval, EAGAIN, EINTR, FD_ISSET, FD_SET, FD_ZERO};
 
         if timeout > 0 {
             let fd = self
@@ -262,6 +275,8 @@ impl Listener {
                 let (s, _addr) = l.accept().map_err(map_context!())?;
                 Ok(Box::new(s))
             }
+            #[cfg(varlink_rust_verif)]
+            Listener::Sim(ref h) => h.0.accept().map_err(map_context!()),
             _ => Err(context!(ErrorKind::ConnectionClosed)),
         }
     }
@@ -270,6 +285,8 @@ impl Listener {
         match *self {
             Listener::TCP(Some(ref l), _) => l.set_nonblocking(b).map_err(map_context!())?,
             Listener::UNIX(Some(ref l), _) => l.set_nonblocking(b).map_err(map_context!())?,
+            #[cfg(varlink_rust_verif)]
+            Listener::Sim(ref h) => h.0.set_nonblocking(b).map_err(map_context!())?,
             _ => return Err(context!(ErrorKind::ConnectionClosed)),
         }
         Ok(())
@@ -280,6 +297,8 @@ impl Listener {
         match *self {
             Listener::TCP(Some(ref l), _) => Some(l.as_raw_fd()),
             Listener::UNIX(Some(ref l), _) => Some(l.as_raw_fd()),
+            #[cfg(varlink_rust_verif)]
+            Listener::Sim(ref h) => Some(h.0.fake_fd()),
             _ => None,
         }
     }
@@ -611,5 +630,145 @@ pub fn listen<S: ?Sized + AsRef<str>, H: crate::ConnectionHandler + Send + Sync 
                 }
             }
         });
+    }
+}
+
+/// Verification seams, compiled only with `--cfg varlink_rust_verif`.
+///
+/// Nothing in here is reachable in a normal build. It lets a simulator that
+/// lives outside this repository (a) hand `listen` a simulated listener through
+/// the address `sim:<name>`, (b) stand in for `select(2)` on that listener
+/// while the real timeout / `EINTR` / `FD_ISSET` logic of `Listener::accept`
+/// runs unchanged, and (c) drive the private `ThreadPool` directly.
+#[cfg(varlink_rust_verif)]
+pub mod verif {
+    use std::cell::RefCell;
+    use std::collections::HashMap;
+    use std::io;
+    use std::os::unix::io::RawFd;
+    use std::sync::Arc;
+
+    use crate::stream::Stream;
+
+    /// Outcome of one simulated `select` on a listener, in the kernel's terms.
+    pub enum SimSelect {
+        /// a connection is pending; `remaining_ms` is what is left of the timeout
+        Ready { remaining_ms: u64 },
+        /// the timeout elapsed with nothing pending
+        TimedOut,
+        /// interrupted by a signal: returns -1 / `EINTR`
+        Interrupted { remaining_ms: u64 },
+    }
+
+    pub trait SimListener: Send + Sync {
+        /// Small fake descriptor (< FD_SETSIZE), unique among live sim listeners of this thread.
+        fn fake_fd(&self) -> RawFd;
+        /// Blocking accept, like `accept(2)` on a blocking listener.
+        fn accept(&self) -> io::Result<Box<dyn Stream>>;
+        fn set_nonblocking(&self, b: bool) -> io::Result<()>;
+        /// Wait until a connection is pending, the timeout elapses or a signal arrives.
+        fn select(&self, timeout_ms: u64) -> SimSelect;
+    }
+
+    #[derive(Clone)]
+    pub struct SimHandle(pub Arc<dyn SimListener>);
+
+    impl std::fmt::Debug for SimHandle {
+        fn fmt(&self, f: &mut std::fmt::Formatter) -> std::fmt::Result {
+            write!(f, "SimHandle(fd={})", self.0.fake_fd())
+        }
+    }
+
+    thread_local! {
+        static REGISTRY: RefCell<HashMap<String, SimHandle>> = RefCell::new(HashMap::new());
+    }
+
+    /// Make a simulated listener reachable as `sim:<name>` on this OS thread.
+    pub fn register(name: &str, l: Arc<dyn SimListener>) {
+        REGISTRY.with(|r| r.borrow_mut().insert(name.to_string(), SimHandle(l)));
+    }
+
+    pub fn unregister(name: &str) {
+        REGISTRY.with(|r| r.borrow_mut().remove(name));
+    }
+
+    pub fn lookup(name: &str) -> Option<SimHandle> {
+        REGISTRY.with(|r| r.borrow().get(name).cloned())
+    }
+
+    /// Stand-in for `libc::select` with the kernel's contract, for one sim listener in `readfds`.
+    ///
+    /// * ready: returns 1, the bit stays set, `timeout` is rewritten with the remaining time (Linux)
+    /// * timeout: returns 0, the bit is cleared, `timeout` becomes zero
+    /// * signal: returns -1 with `errno == EINTR`, descriptor sets untouched
+    ///
+    /// # Safety
+    /// Same requirements as `libc::select`.
+    pub unsafe fn select(
+        nfds: libc::c_int,
+        readfds: *mut libc::fd_set,
+        _writefds: *mut libc::fd_set,
+        _errorfds: *mut libc::fd_set,
+        timeout: *mut libc::timeval,
+    ) -> libc::c_int {
+        let found = REGISTRY.with(|r| {
+            r.borrow()
+                .values()
+                .find(|h| {
+                    let fd = h.0.fake_fd();
+                    fd < nfds && libc::FD_ISSET(fd, readfds)
+                })
+                .cloned()
+        });
+        let h = match found {
+            Some(h) => h,
+            None => {
+                *libc::__errno_location() = libc::EBADF;
+                return -1;
+            }
+        };
+        let fd = h.0.fake_fd();
+        let ms = (*timeout).tv_sec as u64 * 1000 + (*timeout).tv_usec as u64 / 1000;
+        let set_remaining = |ms: u64| {
+            (*timeout).tv_sec = (ms / 1000) as _;
+            (*timeout).tv_usec = ((ms % 1000) * 1000) as _;
+        };
+        match h.0.select(ms) {
+            SimSelect::Ready { remaining_ms } => {
+                set_remaining(remaining_ms);
+                1
+            }
+            SimSelect::TimedOut => {
+                libc::FD_CLR(fd, readfds);
+                set_remaining(0);
+                0
+            }
+            SimSelect::Interrupted { remaining_ms } => {
+                set_remaining(remaining_ms);
+                *libc::__errno_location() = libc::EINTR;
+                -1
+            }
+        }
+    }
+
+    /// Thin public wrapper so the private pool can be driven without sockets.
+    pub struct VerifPool(super::ThreadPool);
+
+    impl VerifPool {
+        pub fn new(initial_worker: usize, max_workers: usize) -> Self {
+            VerifPool(super::ThreadPool::new(initial_worker, max_workers))
+        }
+        pub fn execute<F: FnOnce() + Send + 'static>(&mut self, f: F) {
+            self.0.execute(f)
+        }
+        pub fn num_busy(&self) -> usize {
+            self.0.num_busy()
+        }
+        pub fn num_workers(&self) -> usize {
+            self.0.workers.len()
+        }
+        pub fn max_workers(&self) -> usize {
+            self.0.max_workers
+        }
     }
 }
